@@ -28,4 +28,9 @@ def generate(rng, tier):
             realm = bytes(rng.choice(alpha) for _ in range(ln))
         user = rng.choice([b'u@', b'@', b'', b'a@b@', b'u@x;y@', b'\xe9@']) + realm
         ops.append('op dynrealm %s %s' % (hx(rng.choice(cmds).encode()), hx(user[:253])))
+    # sequences on one configuration: sub-realm created by an earlier request, then other realms / no realm
+    for _ in range(600 if tier == 'thorough' else 60):
+        pool = [b'u@a.example', b'v@a.example', b'u@b.example', b'nobody', b'u@A.EXAMPLE', b'x@sub.a.example', b'u@a.examplex', b'u@;bad', b'w@c.test', b'u@xa.example']
+        seq = [rng.choice(pool) for _ in range(rng.randrange(2, 7))]
+        ops.append('op dynrealm %s %s' % (hx(cmds[0].encode()), ' '.join(hx(x) for x in seq)))
     return [(cid, ['cfg nopipe'] + l) for cid, l in batch(ops, 'dyn', 25)]
